@@ -38,8 +38,10 @@ PROPS = {
         "explanation": "source reads: region composition and sliced chunk sizes proved; request bounds on recording sources bounded",
     },
     "C25": {
-        "level": "exploration",
-        "explanation": "store: region/block index composition (fuse_slice) proved under C13; end-to-end writes bounded over the catalogue",
+        "level": "proof",
+        "explanation": "store: the region/block index composition store relies on (fuse_slice, slice and integer cases) is proved from the "
+                       "real source for all inputs; end-to-end writes (whole target, offset and strided regions, several pairs, delayed, "
+                       "return_stored) are a bounded stand-in over the catalogue",
     },
     "C28": {
         "level": "exploration",
@@ -85,6 +87,14 @@ PROPS = {
     "C14": {
         "level": "exploration",
         "explanation": "rechunk: requested chunks and unchanged values over the catalogue; crosswalk and plan contracts under C15",
+    },
+    "C18": {
+        "level": "exploration",
+        "explanation": "reductions: bounded contracts against NumPy over chunkings, axes, keepdims and split_every; tree depth bound",
+    },
+    "C19": {
+        "level": "proof",
+        "explanation": "ensure_minimum_chunksize proved from the real loop; windowed / scan operations bounded against the NumPy definitions",
     },
     "C12": {
         "level": "proof",
